@@ -143,3 +143,26 @@ func nodeRefs(n *RNode, hashes, leaves *[][]byte, depth int) error {
 	}
 	return fmt.Errorf("node list of %d items", len(n.Kids))
 }
+
+// MPTEmbeddedCount returns how many nodes are embedded (inlined because their RLP is shorter than
+// 32 bytes) inside the stored node blob, at any nesting depth.
+func MPTEmbeddedCount(blob []byte) int {
+	n, _, err := ParseLenient(blob)
+	if err != nil || !n.List {
+		return 0
+	}
+	var count func(n *RNode, top bool) int
+	count = func(n *RNode, top bool) int {
+		c := 0
+		if !top {
+			c = 1
+		}
+		for _, k := range n.Kids {
+			if k.List {
+				c += count(k, false)
+			}
+		}
+		return c
+	}
+	return count(n, true)
+}
